@@ -48,11 +48,13 @@ def _c15_configs(tier):
     out.append(("extra-column-last+offset-index", dict(order=COLS, extra="last", index="offset", pad=0)))
     out.append(("leading+trailing-rows,shuffled-index", dict(order=COLS, extra=None, index="shuffled", pad=40)))
     out.append(("leading-rows,date-index", dict(order=COLS, extra=None, index="date", pad=25)))
+    out.append(("leading-rows,index-from-5", dict(order=COLS, extra=None, index="from5", pad=20)))
+    out.append(("extra-column-with-gaps", dict(order=COLS, extra="gaps", index="default", pad=0)))
     out.append(("reordered+extra+padding+offset-index", dict(order=["Date", "ReferenceET", "MaxTemp", "MinTemp", "Precipitation"], extra="middle", index="offset", pad=17)))
     return out
 
 
-@harness("weather_binding", modules=[], props=["C15", "C16"], configs=_c15_configs, goals=["bound-by-name-and-date"])
+@harness("weather_binding", modules=[], props=["C15", "C16"], configs=_c15_configs, goals=["bound-by-name-and-date"], raise_props=["C15", "C16"])
 def h_binding(ctx, cfg):
     start, end = pd.Timestamp("1979-10-01"), pd.Timestamp("1980-05-30")
     w = weather("tunis_climate.txt")
@@ -62,7 +64,10 @@ def h_binding(ctx, cfg):
     span = pd.date_range(start, end)
     sym_dates = {span[k] for k in probe_days}
     df, cells = _proxy_table(ctx, w, sym_dates)
-    if cfg["extra"]:
+    if cfg["extra"] == "gaps":
+        df["Humidity"] = 55.0
+        df.loc[[3, 4, 5, 20], "Humidity"] = np.nan       # an unrelated column with missing values inside the window
+    elif cfg["extra"]:
         order = list(cfg["order"])
         pos = {"first": 0, "middle": 2, "last": len(order)}[cfg["extra"]]
         order.insert(pos, "WindSpeed")
@@ -72,6 +77,8 @@ def h_binding(ctx, cfg):
         df = df[list(cfg["order"])]
     if cfg["index"] == "offset":
         df.index = range(1000, 1000 + len(df))
+    elif cfg["index"] == "from5":
+        df.index = range(5, 5 + len(df))
     elif cfg["index"] == "shuffled":
         rs = np.random.RandomState(5)
         df.index = rs.permutation(len(df))
@@ -103,8 +110,123 @@ def h_binding(ctx, cfg):
         for var, val in got.items():
             want = cells[(var, d)]
             same = isinstance(val, SF) and (val.e.get_id() == want.e.get_id())
-            cond = (val == want) if isinstance(val, SF) else False
+            cond = (val == want) if isinstance(val, (SF, float, int, np.floating)) else False
             ctx.prove(f"C15:{var} used on a simulated day is the record of that date in the column of that name", cond)
         ctx.prove("C15:degree days are computed from that day's MaxTemp and MinTemp columns",
-                  And(seen.get("gdd_tmax") == cells[("MaxTemp", d)], seen.get("gdd_tmin") == cells[("MinTemp", d)]) if isinstance(seen.get("gdd_tmax"), SF) and isinstance(seen.get("gdd_tmin"), SF) else False)
+                  And(seen.get("gdd_tmax") == cells[("MaxTemp", d)], seen.get("gdd_tmin") == cells[("MinTemp", d)]) if isinstance(seen.get("gdd_tmax"), (SF, float, int, np.floating)) and isinstance(seen.get("gdd_tmin"), (SF, float, int, np.floating)) else False)
     ctx.reach("bound-by-name-and-date")
+
+
+# ------------------------------------------------------------------------------------------------------------------ C14
+def _c14_configs(tier):
+    out = []
+    cuts = [1, 2, 9, 70] if tier == "quick" else [1, 2, 5, 9, 40, 70, 110, 131]
+    for method in ((0, 1) if tier == "quick" else (0, 1, 2, 4)):
+        for t in cuts:
+            out.append((f"future|Maize|method={method}|cut_day={t}", dict(kind="future", crop="Maize", method=method, t=t)))
+    out.append(("future|Wheat-tunis|method=0|cut_day=30", dict(kind="future", crop="Wheat", method=0, t=30)))
+    for crop in (("Maize", "WheatGDD") if tier == "quick" else ("Maize", "WheatGDD", "Potato", "BarleyGDD")):
+        out.append((f"outside-window|{crop}", dict(kind="outside", crop=crop, method=0)))
+    out.append(("end-extension|Maize|2-seasons", dict(kind="extend", crop="Maize", method=1)))
+    return out
+
+
+def _mk(crop, method, wdf, start, end, plant):
+    irr = IrrigationManagement(irrigation_method=method, SMT=[70] * 4) if method == 1 else IrrigationManagement(irrigation_method=method)
+    return AquaCropModel(start, end, wdf, Soil("SandyLoam"), Crop(crop, planting_date=plant), InitialWaterContent(value=["FC"]), irrigation_management=irr)
+
+
+def _rows(m, upto=None):
+    o = m._outputs
+    out = []
+    for tab in (o.water_flux, o.water_storage, o.crop_growth):
+        a = tab.values if hasattr(tab, "values") else tab
+        a = a[:upto] if upto is not None else a
+        out += [float(x) for x in np.asarray(a, dtype=float).ravel()]
+    return out
+
+
+@harness("no_lookahead", modules=[], props=["C14", "C16"], configs=_c14_configs, goals=["future-weather-symbolic", "outside-window-symbolic"])
+def h_lookahead(ctx, cfg):
+    kind = cfg["kind"]
+    if cfg["crop"].startswith("Wheat") or cfg["crop"].startswith("Barley"):
+        wf, start, end, plant = "tunis_climate.txt", "1979/10/01", "1980/06/30", "10/01"
+    else:
+        wf, start, end, plant = "champion_climate.txt", "1982/05/01", "1982/10/30", "05/01"
+    w = weather(wf)
+    s_ts, e_ts = pd.Timestamp(start), pd.Timestamp(end)
+    span = pd.date_range(s_ts, e_ts)
+    if kind == "extend":
+        end2 = "1983/10/30"
+        w = w[(w.Date >= s_ts) & (w.Date <= pd.Timestamp(end2))].reset_index(drop=True)
+        m1 = _mk(cfg["crop"], cfg["method"], w.copy(), start, end, plant)
+        m1.run_model(till_termination=True)
+        n1 = len(m1._outputs.water_flux)
+        harvest_row = int(m1._outputs.final_stats["Harvest Date (Step)"].iloc[0]) + 1
+        sym = {d for d in pd.date_range(e_ts + pd.Timedelta(days=1), pd.Timestamp(end2))}
+        df, cells = _proxy_table(ctx, w, sym)
+        names = [f"{c}@{d.date()}" for (c, d) in cells]
+
+        def run2(alt=None):
+            d2 = df.copy()
+            if alt is not None or not ctx.symbolic:
+                for (c, d), v in cells.items():
+                    nm = f"{c}@{d.date()}"
+                    d2.loc[d2.Date == d, c] = (alt or {}).get(nm, v)
+            m2 = _mk(cfg["crop"], cfg["method"], d2, start, end2, plant)
+            m2._initialize()
+            m2.run_model(num_steps=harvest_row, initialize_model=False)
+            return m2
+        m0 = ctx.mark()
+        try:
+            m2 = run2()
+            rows2 = _rows(m2, harvest_row)
+            suspected = False
+        except (symx.Abort, TypeError, ValueError) as e:
+            rows2 = []; suspected = True
+        alts = [{n: (RANGES[n.split("@")[0]][0] + 0.37 * (RANGES[n.split("@")[0]][1] - RANGES[n.split("@")[0]][0])) for n in names}]
+        ctx.prove_independent("C14:extending the end date leaves the completed season's rows unchanged (records after the old end are arbitrary)",
+                              names, rows2, lambda alt: _rows(run2(alt), harvest_row), since=m0, alts=alts, suspected=suspected)
+        if not suspected:
+            r1 = _rows(m1, harvest_row)
+            ctx.prove("C14:completed season identical in the short and the extended run", len(r1) == len(rows2) and all((a == b) or (a != a and b != b) for a, b in zip(r1, rows2)))
+        return
+    if kind == "future":
+        t = cfg["t"]
+        w = w[(w.Date >= s_ts) & (w.Date <= e_ts)].reset_index(drop=True)
+        sym = {d for d in span[t:]}
+        upto = t
+    else:
+        pad = 60
+        w = w[(w.Date >= s_ts - pd.Timedelta(days=pad)) & (w.Date <= e_ts + pd.Timedelta(days=pad))].reset_index(drop=True)
+        sym = {d for d in w.Date if d < s_ts or d > e_ts}
+        upto = None
+    df, cells = _proxy_table(ctx, w, sym)
+    names = [f"{c}@{d.date()}" for (c, d) in cells]
+    ctx.reach("future-weather-symbolic" if kind == "future" else "outside-window-symbolic")
+
+    def run(alt=None):
+        d2 = df
+        if alt is not None:
+            d2 = df.copy()
+            for (c, d), v in cells.items():
+                d2.loc[d2.Date == d, c] = alt.get(f"{c}@{d.date()}", v)
+        m = _mk(cfg["crop"], cfg["method"], d2, start, end, plant)
+        m._initialize()
+        if upto is not None:
+            m.run_model(num_steps=upto, initialize_model=False)
+        else:
+            m.run_model(till_termination=True, initialize_model=False)
+        return m
+    m0 = ctx.mark()
+    try:
+        m = run()
+        rows = _rows(m, upto)
+        suspected = False
+    except (symx.Abort, TypeError, ValueError, ZeroDivisionError) as e:
+        rows = []; suspected = True
+        ctx.note("touched", f"{type(e).__name__}: {e}")
+    alts = [{n: (RANGES[n.split("@")[0]][0] + f * (RANGES[n.split("@")[0]][1] - RANGES[n.split("@")[0]][0])) for n in names} for f in (0.37, 0.9)]
+    label = ("C14:outputs before the cut day do not depend on weather from the cut day on" if kind == "future"
+             else "C14:weather records outside the simulation window have no effect")
+    ctx.prove_independent(label, names, rows, lambda alt: _rows(run(alt), upto), since=m0, alts=alts, suspected=suspected)
